@@ -348,3 +348,144 @@ func FormDoc(variant string) []byte {
 	}
 	return d.Bytes()
 }
+
+// ForeignFormVariants lists the hand-built AcroForms of ForeignForm.
+var ForeignFormVariants = []string{"classic", "classic-objstm", "hierarchy"}
+
+// ForeignForm builds an AcroForm the way other producers write them, using structures pdfcpu's own form
+// writer never emits: hierarchical field names with inherited /FT and /DA, values as UTF-16BE hex strings,
+// check boxes whose on-state is not /Yes, radio groups with and without an explicit /Opt array, choice
+// fields with [export display] option pairs, /I selection indices, /MaxLen, multi-line text.
+// "classic-objstm" is the same document written with object streams and a cross-reference stream.
+func ForeignForm(variant string) []byte {
+	if variant == "hierarchy" {
+		return foreignHierarchy()
+	}
+	d := Simple([]PageSpec{{Marker: 1}}, SimpleOpts{Title: "foreign form"})
+	pg := firstPageRef(d)
+	helv := d.Add("<</Type/Font/Subtype/Type1/BaseFont/Helvetica/Encoding/WinAnsiEncoding>>")
+	zadb := d.Add("<</Type/Font/Subtype/Type1/BaseFont/ZapfDingbats>>")
+	ap := func(w, h int) string {
+		return Ref(d.AddStream(fmt.Sprintf("<</Type/XObject/Subtype/Form/BBox[0 0 %d %d]/Resources<</Font<</Helv %s/ZaDb %s>>>>>>", w, h, Ref(helv), Ref(zadb)), []byte("q Q\n")))
+	}
+	var fields, annots []string
+	y := 760
+	rect := func(w, h int) string {
+		y -= h + 8
+		return fmt.Sprintf("/Rect[100 %d %d %d]", y, 100+w, y+h)
+	}
+	widget := func(extra string, w, h int) string {
+		return fmt.Sprintf("/Type/Annot/Subtype/Widget%s/F 4/P %s%s", rect(w, h), pg, extra)
+	}
+	top := func(body string, isWidget bool) int {
+		nr := d.Add("<<" + body + ">>")
+		fields = append(fields, Ref(nr))
+		if isWidget {
+			annots = append(annots, Ref(nr))
+		}
+		return nr
+	}
+	// 1. hierarchical text fields, /FT inherited from the non-terminal parent
+	parent := d.Reserve()
+	first := d.Add(fmt.Sprintf("<</T(first)/V(Ann)/Parent %s/%s/AP<</N %s>>>>", Ref(parent), widget("", 150, 18)[1:], ap(150, 18)))
+	last := d.Add(fmt.Sprintf("<</T(last)/V<FEFF004D00FC006C006C00650072>/Parent %s/%s/AP<</N %s>>>>", Ref(parent), widget("", 150, 18)[1:], ap(150, 18)))
+	d.Set(parent, fmt.Sprintf("<</T(name)/FT/Tx/Kids[%s %s]>>", Ref(first), Ref(last)))
+	fields = append(fields, Ref(parent))
+	annots = append(annots, Ref(first), Ref(last))
+	// 2. MaxLen, 3. multi-line
+	top(fmt.Sprintf("/FT/Tx/T(code)/MaxLen 4/V(abcd)/%s/AP<</N %s>>", widget("", 60, 18)[1:], ap(60, 18)), true)
+	top(fmt.Sprintf("/FT/Tx/T(notes)/Ff 4096/V(one\\rtwo)/%s/AP<</N %s>>", widget("", 150, 40)[1:], ap(150, 40)), true)
+	// 4./5. check boxes with unusual on-state names
+	top(fmt.Sprintf("/FT/Btn/T(agree)/V/On/AS/On/MK<</CA(4)>>/%s/AP<</N<</On %s/Off %s>>>>", widget("", 12, 12)[1:], ap(12, 12), ap(12, 12)), true)
+	top(fmt.Sprintf("/FT/Btn/T(news)/V/Off/AS/Off/MK<</CA(4)>>/%s/AP<</N<</1 %s/Off %s>>>>", widget("", 12, 12)[1:], ap(12, 12), ap(12, 12)), true)
+	// 6. radio group, option names from the appearance states
+	rg := d.Reserve()
+	var kids []string
+	for _, st := range []string{"a", "b", "c"} {
+		as := "Off"
+		if st == "b" {
+			as = st
+		}
+		k := d.Add(fmt.Sprintf("<</Parent %s/AS/%s/MK<</CA(l)>>/%s/AP<</N<</%s %s/Off %s>>>>>>", Ref(rg), as, widget("", 12, 12)[1:], st, ap(12, 12), ap(12, 12)))
+		kids = append(kids, Ref(k))
+		annots = append(annots, Ref(k))
+	}
+	d.Set(rg, fmt.Sprintf("<</FT/Btn/Ff 49152/T(size)/V/b/Kids[%s]>>", strings.Join(kids, " ")))
+	fields = append(fields, Ref(rg))
+	// 7. radio group with explicit /Opt: appearance states are indices
+	rg2 := d.Reserve()
+	kids = nil
+	for i := range []string{"first", "second"} {
+		as := "Off"
+		if i == 1 {
+			as = "1"
+		}
+		k := d.Add(fmt.Sprintf("<</Parent %s/AS/%s/MK<</CA(l)>>/%s/AP<</N<</%d %s/Off %s>>>>>>", Ref(rg2), as, widget("", 12, 12)[1:], i, ap(12, 12), ap(12, 12)))
+		kids = append(kids, Ref(k))
+		annots = append(annots, Ref(k))
+	}
+	d.Set(rg2, fmt.Sprintf("<</FT/Btn/Ff 49152/T(rank)/V/1/Opt[(first)(second)]/Kids[%s]>>", strings.Join(kids, " ")))
+	fields = append(fields, Ref(rg2))
+	// 8./9. combo boxes: plain options and [export display] pairs
+	top(fmt.Sprintf("/FT/Ch/Ff 131072/T(colour)/Opt[(red)(green)(blue)]/V(green)/%s/AP<</N %s>>", widget("", 100, 18)[1:], ap(100, 18)), true)
+	top(fmt.Sprintf("/FT/Ch/Ff 131072/T(tier)/Opt[[(e1)(One)][(e2)(Two)][(e3)(Three)]]/V(e2)/%s/AP<</N %s>>", widget("", 100, 18)[1:], ap(100, 18)), true)
+	// 10./11. list boxes: multi-select with /I, single select
+	top(fmt.Sprintf("/FT/Ch/Ff 2097152/T(toppings)/Opt[(x)(y)(z)]/V[(x)(z)]/I[0 2]/%s/AP<</N %s>>", widget("", 100, 42)[1:], ap(100, 42)), true)
+	top(fmt.Sprintf("/FT/Ch/T(side)/Opt[(p)(q)(r)]/V(q)/I[1]/%s/AP<</N %s>>", widget("", 100, 42)[1:], ap(100, 42)), true)
+
+	d.PatchCatalog(fmt.Sprintf("/AcroForm<</Fields[%s]/DA(/Helv 10 Tf 0 g)/DR<</Font<</Helv %s/ZaDb %s>>>>>>", strings.Join(fields, " "), Ref(helv), Ref(zadb)))
+	for _, nr := range sortedKeys(d.objs) {
+		if Ref(nr) == pg {
+			o := d.objs[nr]
+			o.body = strings.TrimSuffix(o.body, ">>") + fmt.Sprintf("/Annots[%s]>>", strings.Join(annots, " "))
+		}
+	}
+	if variant == "classic-objstm" {
+		return d.BytesXRefStream(true)
+	}
+	return d.Bytes()
+}
+
+// foreignHierarchy: non-terminal fields without /FT two levels deep, one field shown by two widgets,
+// flags inherited from a non-terminal parent.
+func foreignHierarchy() []byte {
+	d := Simple([]PageSpec{{Marker: 1}}, SimpleOpts{Title: "foreign form hierarchy"})
+	pg := firstPageRef(d)
+	helv := d.Add("<</Type/Font/Subtype/Type1/BaseFont/Helvetica/Encoding/WinAnsiEncoding>>")
+	ap := func(w, h int) string {
+		return Ref(d.AddStream(fmt.Sprintf("<</Type/XObject/Subtype/Form/BBox[0 0 %d %d]/Resources<</Font<</Helv %s>>>>>>", w, h, Ref(helv)), []byte("q Q\n")))
+	}
+	y := 760
+	var annots []string
+	widget := func(w, h int) string {
+		y -= h + 8
+		return fmt.Sprintf("/Type/Annot/Subtype/Widget/Rect[100 %d %d %d]/F 4/P %s/AP<</N %s>>", y, 100+w, y+h, pg, ap(w, h))
+	}
+	person, address := d.Reserve(), d.Reserve()
+	first := d.Add(fmt.Sprintf("<</FT/Tx/T(first)/V(Ann)/Parent %s%s>>", Ref(person), widget(150, 18)))
+	last := d.Add(fmt.Sprintf("<</FT/Tx/T(last)/V<FEFF004D00FC006C006C00650072>/Parent %s%s>>", Ref(person), widget(150, 18)))
+	street := d.Add(fmt.Sprintf("<</FT/Tx/T(street)/V(Main St 1)/Parent %s%s>>", Ref(address), widget(150, 18)))
+	city := d.Add(fmt.Sprintf("<</FT/Ch/Ff 131072/T(city)/Opt[(Wien)(Graz)(Linz)]/V(Graz)/Parent %s%s>>", Ref(address), widget(100, 18)))
+	d.Set(address, fmt.Sprintf("<</T(address)/Parent %s/Kids[%s %s]>>", Ref(person), Ref(street), Ref(city)))
+	d.Set(person, fmt.Sprintf("<</T(person)/Kids[%s %s %s]>>", Ref(first), Ref(last), Ref(address)))
+	annots = append(annots, Ref(first), Ref(last), Ref(street), Ref(city))
+	// one text field, two widgets
+	twice := d.Reserve()
+	w1 := d.Add(fmt.Sprintf("<</Parent %s%s>>", Ref(twice), widget(120, 18)))
+	w2 := d.Add(fmt.Sprintf("<</Parent %s%s>>", Ref(twice), widget(120, 18)))
+	d.Set(twice, fmt.Sprintf("<</FT/Tx/T(ref)/V(R-1)/Kids[%s %s]>>", Ref(w1), Ref(w2)))
+	annots = append(annots, Ref(w1), Ref(w2))
+	// a group that passes the read-only flag down
+	grp := d.Reserve()
+	ro := d.Add(fmt.Sprintf("<</FT/Tx/T(fixed)/V(const)/Parent %s%s>>", Ref(grp), widget(120, 18)))
+	d.Set(grp, fmt.Sprintf("<</T(meta)/Ff 1/Kids[%s]>>", Ref(ro)))
+	annots = append(annots, Ref(ro))
+	d.PatchCatalog(fmt.Sprintf("/AcroForm<</Fields[%s %s %s]/DA(/Helv 10 Tf 0 g)/DR<</Font<</Helv %s>>>>>>", Ref(person), Ref(twice), Ref(grp), Ref(helv)))
+	for _, nr := range sortedKeys(d.objs) {
+		if Ref(nr) == pg {
+			o := d.objs[nr]
+			o.body = strings.TrimSuffix(o.body, ">>") + fmt.Sprintf("/Annots[%s]>>", strings.Join(annots, " "))
+		}
+	}
+	return d.Bytes()
+}
